@@ -220,6 +220,11 @@ def dump_deviations():
     out.append({'src': {'A0': 'notfound'}, 'borrowers': [{'texts': False, 'ans': {'A': 'has'}}]})
     out.append({'text': {'B': 'synerr'}, 'borrowers': [{'texts': False, 'ans': {'B': 'has'}}]})
     out.append({'text': {'B': 'synerr'}, 'borrowers': [{'texts': True, 'ans': {'B': 'has'}}]})
+    # a failure that can be repaired by borrowing next to one that cannot: the run is abandoned (or not, with --ignore-errors)
+    for good, bad in (('A', 'B'), ('B', 'A')):
+        out.append({'text': {good: 'synerr', bad: 'synerr'}, 'borrowers': [{'texts': False, 'ans': {good: 'has'}}]})
+        out.append({'text': {good: 'synerr'}, 'src': {bad + '0': 'notfound'}, 'borrowers': [{'texts': False, 'ans': {good: 'has'}}]})
+        out.append({'text': {good: 'dupsym', bad: 'truncated'}, 'borrowers': [{'texts': False, 'ans': {good: 'has'}}]})
     return out
 
 
